@@ -145,11 +145,12 @@ def _clamp(_):
     st = Stats()
     names = [f'c{i:03d}' for i in range(149)] + ['label']
     for cap in (2 ** 15,):
-        st.count('evaluations')
-        st.count('nontrivial')
-        st.count('clamp_cases')
-        for sig, msg in judge(names, 'MI-numba-3mr', True, cap):
-            st.violation({'columns': names, 'heuristic': 'MI-numba-3mr', 'pairwise': True, 'cap': cap}, msg, dict(sig, clamp=True))
+        for heuristic in ('MI-numba-3mr', 'Constant'):      # the 10^4 clamp belongs to the 3MR heuristics only
+            st.count('evaluations')
+            st.count('nontrivial')
+            st.count('clamp_cases')
+            for sig, msg in judge(names, heuristic, True, cap):
+                st.violation({'columns': names, 'heuristic': heuristic, 'pairwise': True, 'cap': cap}, msg, dict(sig, clamp=True))
     return st
 
 
